@@ -34,6 +34,12 @@ theorem contents_remove (t : Trie) (h : WF t) (k : Bytes) :
 theorem wf_unique (t₁ t₂ : Trie) (h₁ : WF t₁) (h₂ : WF t₂) (he : t₁.toList = t₂.toList) : t₁ = t₂ :=
   OasisProofs.Mkvs.wf_unique h₁ h₂ he
 
+/-- The root hash is a function of the contents: any two canonical trees with the same contents —
+however they were produced (operation history, replay of a write log, restore) — hash alike. -/
+theorem root_depends_only_on_contents (H : Bytes → Bytes) (t₁ t₂ : Trie) (h₁ : WF t₁) (h₂ : WF t₂)
+    (he : t₁.toList = t₂.toList) : hashWith H t₁ = hashWith H t₂ := by
+  rw [OasisProofs.Mkvs.wf_unique h₁ h₂ he]
+
 /-- A write operation. Overwrites are inserts of a present key. Commits do not change the tree
 (`Commit` only hashes it), so batching into commits is any way of cutting the list. -/
 inductive WOp where
